@@ -18,6 +18,31 @@ CHECKS = {
         note="Coq kernel + vm_compute; model Model/Bundle.v; the regex used for cell-grid names is modelled by grid_name and tied by the generated grid cases; names without whitespace for grids.",
         design="DESIGN.md section 5/C20",
     ),
+    "C02": dict(
+        text="Theorems over the table-block parser for all grids and all float()/to_datetime() functions: header extraction, full shape, column locality, per-kind cell rules incl. the exact condition for a missing numeric value and 'nothing else' case splits. Model tied to the real reader by generated grids evaluated with vm_compute; expectation of the oracle is a literal reading of the StarTable rules.",
+        note="Coq kernel + vm_compute; models Model/{Cell,ParseTable,Reader}.v; H_float/H_datetime/H_native enter as theorem parameters and as per-case lookup tables computed by the interpreter; generated cells over an alphabet where str.lower is ASCII-only.",
+        design="DESIGN.md section 5/C02",
+    ),
+    "C07": dict(
+        text="Theorems for every input: the jsondata read equals the pdtable read with each table replaced by the JSON rendering of the same parse; the cellgrid read never fails and hands out the raw rows of each block, with the same types/origins whenever the pdtable read succeeds. Correspondence on three forms per generated sheet; oracle compares jsondata with table_to_json_data incl. exact leaf types and checks rejection of unknown forms before any row is consumed.",
+        note="Coq kernel + vm_compute; models Reader.v, Json.v; H_tolist; the dispatch on the 'to' string itself is checked by the oracle only.",
+        design="DESIGN.md section 5/C07",
+    ),
+    "C11": dict(
+        text="Theorems for every input, predicate, form and tracker: reading with a filter equals reading the accepted blocks only (rejected content does not occur in the result); the offered table name is the parsed table's name; a rejected block is not handed to its handler. Correspondence with random predicates; oracle compares with the unfiltered read and records the predicate's arguments.",
+        note="Coq kernel + vm_compute; model Reader.v; predicates assumed pure.",
+        design="DESIGN.md section 5/C11",
+    ),
+    "C12": dict(
+        text="Theorem for EVERY row sequence over cells of any kind, every form, filter and tracker: the reader never ends with an exception other than InputError (premises: to_datetime raises only ValueError; fewer than 1000 column-name cells per table); prefix delivery under the raising tracker; continuation under a collecting tracker. Correspondence + oracle on fault-injected sheets incl. exhaustive single faults of seed sheets.",
+        note="Coq kernel + vm_compute; models Segment.v, ParseTable.v, Reader.v; crash sites of the code are Crash results in the model; pandas DataFrame construction after a successful parse is outside the model (one residual escape is documented in DESIGN.md: mixed-resolution datetime column).",
+        design="DESIGN.md section 5/C12",
+    ),
+    "C13": dict(
+        text="Theorems for all grids and fixer configurations: strict accepts only repair-free tables; every counted repair is logged; per column exact warning count, untouched non-defective cells, replacement in illegal cells; exact error count and filler for short rows; unique names; full shape; per-block isolation. Correspondence incl. fixer counters after each block; oracle recomputes expectations from the injected defect set.",
+        note="Coq kernel + vm_compute; models ParseTable.v, Reader.v; custom fixers return values of the column's type.",
+        design="DESIGN.md section 5/C13",
+    ),
 }
 ALL = [f"C{n:02d}" for n in range(1, 21)]
 NOT_YET = {p: "check not built yet in this revision (planned, see DESIGN.md section 5); not a claim that the technique cannot apply" for p in ALL if p not in CHECKS}
